@@ -101,8 +101,15 @@ def s_canon(v):
         fs.add_dir('sub')
         for n in [snames[i] for i in sp]:
             fs.add_file('sub/' + n, size=1, digest=n)
+        cck = {'MD5': digest_for('MD5', 'C')}
+        if c.rename:
+            # two checksums per entry, listed in a different order in the two histories
+            # (hand-written or foreign Manifests); the file is unchanged, so the entry object
+            # survives the update
+            pairs = [('MD5', digest_for('MD5', 'C')), ('SHA1', digest_for('SHA1', 'C'))]
+            cck = dict(pairs[::-1] if variant else pairs)
         base = [mk('DATA', 'a', ea_size, MD5=digest_for('MD5', ea_dig)),
-                mk('MISC', 'c', 2, MD5=digest_for('MD5', 'C')),
+                mk('MISC', 'c', 2, **cck),
                 mk('MANIFEST', 'sub/Manifest', 5, MD5=digest_for('MD5', 'S'))]
         top = [base[i] for i in ep]
         if b_listed:
@@ -122,17 +129,29 @@ def s_canon(v):
 
 def run_canon(c):
     kw = {'compress_watermark': 128} if c.rename else None
-    o1 = tree.run_update(c.fs, 'Manifest', '', ('MD5',), True, False, save_kw=kw)
-    o2 = tree.run_update(c.fs2, 'Manifest', '', ('MD5',), True, False, save_kw=kw)
+    hs = ('MD5', 'SHA1') if c.rename else ('MD5',)
+    o1 = tree.run_update(c.fs, 'Manifest', '', hs, True, False, save_kw=kw)
+    o2 = tree.run_update(c.fs2, 'Manifest', '', hs, True, False, save_kw=kw)
     return (o1, o2)
 
 
 def judge_canon(c, out):
     if out != ('saved', 'saved'):
+        # these trees update without error; an internal error here would hide everything
+        if str(out[0]).startswith('crash') or str(out[1]).startswith('crash'):
+            return False, False
         return out[0] == out[1], False
     s1, s2 = snapshot(c.fs)[0], snapshot(c.fs2)[0]
     if sorted(s1) != sorted(s2):
         return False, True
+    if c.rename:
+        # the text the real dump() wrote is the same in both histories, line by line (the
+        # digests of rewritten Manifests are fresh tokens per world: MANIFEST lines apart)
+        for p in s1:
+            t1 = [ln for ln in c.fs.node(p).text if not ln.startswith('MANIFEST ')]
+            t2 = [ln for ln in c.fs2.node(p).text if not ln.startswith('MANIFEST ')]
+            if t1 != t2:
+                return False, True
     for p in s1:
         a, b = s1[p], s2[p]
         if len(a) != len(b):
